@@ -346,10 +346,15 @@ bool splinetable<Alloc>::read_fits_core(fitsfile* fits, const std::string& fileP
 		hduname << "KNOTS" << i;
 		fits_movnam_hdu(fits, IMAGE_HDU, const_cast<char*>(hduname.str().c_str()), 0, &error);
 		long nknots_temp;
+		int knots_dim = 0;
+		fits_get_img_dim(fits, &knots_dim, &error);
 		fits_get_img_size(fits, 1, &nknots_temp, &error);
 		
 		if (error != 0)
 			throw std::runtime_error("Error reading size of knot vector "+std::to_string(i));
+		//the pixel coordinates passed to fits_read_pix below are one-dimensional
+		if (knots_dim != 1)
+			throw std::runtime_error("Knot vector "+std::to_string(i)+" is not a one-dimensional array");
 		if(nknots_temp<=0)
 			throw std::runtime_error("Invalid number of knots ("+std::to_string(nknots_temp)+") in dimension "+std::to_string(i));
 		nknots[i]=nknots_temp;
@@ -383,9 +388,11 @@ bool splinetable<Alloc>::read_fits_core(fitsfile* fits, const std::string& fileP
 		long n_extents = 0;
 		long fpix = 1;
 		int ext_error = 0;
+		int ext_dim = 0;
 		fits_movnam_hdu(fits, IMAGE_HDU, const_cast<char*>("EXTENTS"), 0, &ext_error);
+		fits_get_img_dim(fits, &ext_dim, &ext_error);
 		fits_get_img_size(fits, 1, &n_extents, &ext_error);
-		if (n_extents != 2*ndim)
+		if (ext_dim != 1 || n_extents != 2*ndim)
 			ext_error = 1;
 		
 		if (ext_error != 0) { // No extents. Make up some reasonable ones.
